@@ -97,6 +97,7 @@ type consNode struct {
 	ConR   *consensus.ConsensusManager
 	Sw     *p2p.Switch
 	Key    string // node key right after construction
+	Stamp  string // node stamp right after construction
 	Height uint64
 	Round  uint32
 	// the valid block of the node's current height (built by the round's proposer), its parts and the
@@ -137,13 +138,20 @@ func voteTime(h uint64, r uint32, t kproto.SignedMsgType, key int) time.Time {
 }
 
 // signedVote makes a vote of validator `key` exactly as a correct validator would sign it.
+var sigMemo = map[string][]byte{}
+
 func signedVote(key int, valIdx uint32, t kproto.SignedMsgType, h uint64, r uint32, id types.BlockID) *types.Vote {
+	mk := fmt.Sprintf("v|%d|%d|%d|%d|%d|%x|%d|%x", key, valIdx, t, h, r, id.Hash, id.PartsHeader.Total, id.PartsHeader.Hash)
+	if sig, ok := sigMemo[mk]; ok {
+		return &types.Vote{Type: t, Height: h, Round: r, BlockID: id, Timestamp: voteTime(h, r, t, key), ValidatorAddress: allAddrs[key], ValidatorIndex: valIdx, Signature: sig}
+	}
 	v := &types.Vote{Type: t, Height: h, Round: r, BlockID: id, Timestamp: voteTime(h, r, t, key), ValidatorAddress: allAddrs[key], ValidatorIndex: valIdx}
 	p := v.ToProto()
 	if err := types.NewDefaultPrivValidator(allKeys[key]).SignVote(chainID, p); err != nil {
 		panic(err)
 	}
 	v.Signature = p.Signature
+	sigMemo[mk] = p.Signature
 	return v
 }
 
@@ -326,10 +334,14 @@ func newConsNode(state string, t int) (c *consNode, err error) {
 	}
 	c.Height = rs.Height
 	c.Key = consensus.VerifC18NodeKey(n)
+	c.Stamp = consensus.VerifC18NodeStamp(n)
 	return c, nil
 }
 
 func (c *consNode) close() {
+	// OnStop waits for the ConsensusState's own routine unless the reactor is in wait-sync mode; that
+	// routine was never started here (the checker drives the handlers itself)
+	consensus.VerifC18SetWaitSync(c.ConR, true)
 	c.ConR.Stop()
 	c.N.Close()
 }
